@@ -2,6 +2,7 @@
 import Driver.Util
 import SpyneModel.Null
 import SpyneModel.NullSeq
+import SpyneModel.NullExt
 import SpyneModel.Generated.Facts18
 open Lean SpyneModel.Null Driver
 
@@ -104,6 +105,31 @@ def implOf (j : Json) : List Val → Result :=
       | _ => .error
   | _ => fun _ => .error
 
+def memberOf (j : Json) : Option Member :=
+  match j.getObjVal? "member" with
+  | .ok m =>
+    (match m.getObjVal? "cls" with
+     | .ok (.str cls) => some ⟨cls, strList ((m.getObjVal? "fields").toOption.getD (.arr #[])), getBool m "default_on_null",
+        (match m.getObjVal? "when" with | .ok (.bool b) => b | _ => true)⟩
+     | _ => none)
+  | _ => none
+
+/-- the scripted body, turned into a member method when the query says so -/
+def progOf (j : Json) : List Val → Result :=
+  memberImpl (memberOf j) (implOf ((j.getObjVal? "script").toOption.getD .null))
+
+/-- what the user function itself receives: for a member method the respawned instance first -/
+def fnRecv (j : Json) (r : Res (List Val)) : Res (List Val) :=
+  match memberOf j with
+  | none => r
+  | some m => (r.bind (respawn m)).bind fun a => if m.whenOk then .ok a else .fault "Client.InvalidInput"
+
+def optStr (j : Json) (k : String) : Option String :=
+  match j.getObjVal? k with | .ok (.str s) => some s | _ => none
+
+def styleName : StyleStr → String
+  | .wrapped => "wrapped" | .bare => "bare" | .outBare => "out_bare"
+
 def kwOf (j : Json) (k : String) : List (String × Val) :=
   (getArr j k).toList.map fun p => match p with
     | .arr #[.str key, v] => (key, valOf v)
@@ -128,14 +154,14 @@ def callsOf (j : Json) : List Call :=
     ((getArr c "pos").toList.map valOf, kwOf c "kw")
 
 /-- results, received arguments and auxiliary runs of a call history on one kept object -/
-def seqSteps (s : Sig) (impl : List Val → Result) (auxs : List Aux) :
+def seqSteps (fr : Res (List Val) → Res (List Val)) (s : Sig) (impl : List Val → Result) (auxs : List Aux) :
     Option (List Val) → List Call → List Json
   | _, [] => []
   | kept, c :: cs =>
-    Json.mkObj [("recv", recvJson (nullRecvFrom F s kept c.1 c.2)),
+    Json.mkObj [("recv", recvJson (fr (nullRecvFrom F s kept c.1 c.2))),
                 ("out", resJson valJson (nullCallFrom F s impl auxs kept c.1 c.2)),
                 ("aux", Json.arr ((nullAuxRecv F s impl auxs kept c.1 c.2).map recvJson).toArray)]
-      :: seqSteps s impl auxs (slotsAfter F s kept c.1 c.2) cs
+      :: seqSteps fr s impl auxs (slotsAfter F s kept c.1 c.2) cs
 
 def step (j : Json) : Json :=
   let s := sigOf ((j.getObjVal? "sig").toOption.getD .null)
@@ -149,28 +175,37 @@ def step (j : Json) : Json :=
         ("out_len", if s.style = .wrapped then Json.num s.outLen else .null)])]
     else Json.mkObj [("error", Json.str "decorator")]
   | "null.call" =>
-    let impl := implOf ((j.getObjVal? "script").toOption.getD .null)
+    let impl := progOf j
     let pos := (getArr j "pos").toList.map valOf
     let kw := kwOf j "kw"
-    Json.mkObj [("recv", resJson (fun xs => Json.arr (xs.map valJson).toArray) (nullRecv F s pos kw)),
+    Json.mkObj [("recv", resJson (fun xs => Json.arr (xs.map valJson).toArray) (fnRecv j (nullRecv F s pos kw))),
                 ("out", resJson valJson (nullCall F s impl pos kw))]
   | "wire.call" =>
-    let impl := implOf ((j.getObjVal? "script").toOption.getD .null)
+    let impl := progOf j
     let pos := (getArr j "pos").toList.map valOf
     let kw := kwOf j "kw"
     let P := protoOf (getStr j "proto")
-    Json.mkObj [("recv", resJson (fun xs => Json.arr (xs.map valJson).toArray) (wireRecvOf P id s pos kw)),
+    Json.mkObj [("recv", resJson (fun xs => Json.arr (xs.map valJson).toArray) (fnRecv j (wireRecvOf P id s pos kw))),
                 ("out", resJson valJson (wireCall F P id s impl pos kw))]
+  | "null.ostr" =>
+    let impl := progOf j
+    let pos := (getArr j "pos").toList.map valOf
+    let kw := kwOf j "kw"
+    Json.mkObj [("out", resJson valJson (nullOstr F (protoOf (getStr j "proto")) id s impl pos kw))]
+  | "style" =>
+    (match validateBodyStyle (optStr j "body_style") (optStr j "soap_body_style") with
+     | some st => Json.mkObj [("ok", Json.str (styleName st))]
+     | none => Json.mkObj [("error", Json.str "ValueError")])
   | "null.seq" =>
-    let impl := implOf ((j.getObjVal? "script").toOption.getD .null)
-    Json.mkObj [("steps", Json.arr (seqSteps s impl (auxsOf j) none (callsOf j)).toArray)]
+    let impl := progOf j
+    Json.mkObj [("steps", Json.arr (seqSteps (fnRecv j) s impl (auxsOf j) none (callsOf j)).toArray)]
   | "wire.aux" =>
-    let impl := implOf ((j.getObjVal? "script").toOption.getD .null)
+    let impl := progOf j
     let pos := (getArr j "pos").toList.map valOf
     let kw := kwOf j "kw"
     let P := protoOf (getStr j "proto")
     let auxs := auxsOf j
-    Json.mkObj [("recv", recvJson (wireRecvOf P id s pos kw)),
+    Json.mkObj [("recv", recvJson (fnRecv j (wireRecvOf P id s pos kw))),
                 ("out", resJson valJson (wireCallAux F P id s impl auxs pos kw)),
                 ("aux", Json.arr ((wireAuxRecv F P id s impl auxs pos kw).map recvJson).toArray)]
   | op => Json.mkObj [("driver_error", Json.str s!"unknown op {op}")]
